@@ -849,6 +849,149 @@ theorem remove_is_events (ttl now : Nat) (s : Store) (ids : List String) :
   | nil => rfl
   | cons r rs ih => simpa [remove, run, step] using ih (remove1 s r)
 
+/-! ### the remove-from-staging hook: every agreed WORK id leaves the store, nothing else does -/
+
+/-- the hook is the sequence of `remove` events for the work ids of the agreed performables, in order -/
+theorem runHook_is_events (ttl now : Nat) (s : Store) (agreed : List CheckResult) :
+    runHook s agreed = run ttl s (agreed.map (fun r => Ev.remove now r.workID)) := by
+  have := remove_is_events ttl now s (agreed.map (·.workID))
+  simpa [runHook, List.map_map, Function.comp_def] using this
+
+theorem get_remove (s : Store) (ids : List String) (w : String) :
+    get (remove s ids) w = if w ∈ ids then none else get s w := by
+  induction ids generalizing s with
+  | nil => simp [remove]
+  | cons id ids ih =>
+    have h := ih (remove1 s id)
+    simp only [remove, List.foldl_cons] at h ⊢
+    rw [h, get_remove1]
+    by_cases h1 : w ∈ ids
+    · simp [h1]
+    · by_cases h2 : id = w
+      · simp [h2]
+      · have h3 : ¬ w = id := fun h => h2 h.symm
+        simp [h1, h2, h3]
+
+/-- the slot of every work id after the hook: empty if ANY agreed performable carries that work id — whatever upkeep
+it belongs to, however many other agreed performables share that upkeep, wherever it stands in the list —,
+untouched otherwise -/
+theorem get_runHook (s : Store) (agreed : List CheckResult) (w : String) :
+    get (runHook s agreed) w = if w ∈ agreed.map (·.workID) then none else get s w :=
+  get_remove s _ w
+
+theorem runHook_removes_every_agreed (s : Store) (agreed : List CheckResult) (a : CheckResult) (ha : a ∈ agreed) :
+    get (runHook s agreed) a.workID = none := by
+  have : a.workID ∈ agreed.map (·.workID) := List.mem_map.mpr ⟨a, ha, rfl⟩
+  simp [get_runHook, this]
+
+theorem runHook_keeps_others (s : Store) (agreed : List CheckResult) (w : String)
+    (hw : ∀ a ∈ agreed, a.workID ≠ w) : get (runHook s agreed) w = get s w := by
+  have : w ∉ agreed.map (·.workID) := by
+    intro h
+    obtain ⟨a, ha, haw⟩ := List.mem_map.mp h
+    exact hw a ha haw
+  simp [get_runHook, this]
+
+/-- the order of the agreed performables does not matter -/
+theorem runHook_perm (s : Store) (agreed agreed' : List CheckResult) (h : agreed.Perm agreed') (w : String) :
+    get (runHook s agreed) w = get (runHook s agreed') w := by
+  simp only [get_runHook, (List.Perm.map (·.workID) h).mem_iff]
+
+theorem WF_runHook {s : Store} (h : WF s) (agreed : List CheckResult) : WF (runHook s agreed) := by
+  rw [runHook_is_events 0 0]
+  exact WF_run _ h
+
+/-- the view right after the hook ran on an outcome, after any history: no result of an agreed work id, and
+every other result that was viewed before -/
+theorem view_after_hook (ttl : Nat) (evs : List Ev) (agreed : List CheckResult) (t : Nat) (out : List CheckResult)
+    (h : ViewOf ttl t (runHook (run ttl [] evs) agreed) out) :
+    (∀ r ∈ out, ∀ a ∈ agreed, r.workID ≠ a.workID) ∧
+    (∀ r ∈ view ttl t (run ttl [] evs), (∀ a ∈ agreed, a.workID ≠ r.workID) → r ∈ out) := by
+  have hwf := wf_reach ttl evs
+  have hwf' := WF_runHook hwf agreed
+  constructor
+  · intro r hr a ha hra
+    obtain ⟨e, hg, _, _⟩ := (mem_view hwf' r).mp ((List.Perm.mem_iff h).mp hr)
+    rw [hra, runHook_removes_every_agreed _ _ a ha] at hg
+    cases hg
+  · intro r hr hne
+    apply (List.Perm.mem_iff h).mpr
+    obtain ⟨e, hg, he, hx⟩ := (mem_view hwf r).mp hr
+    exact (mem_view hwf' r).mpr ⟨e, by rw [runHook_keeps_others _ _ _ hne]; exact hg, he, hx⟩
+
+/-- "until it is removed because the network agreed on it … a view never contains a removed one", for outcomes:
+after the hook ran, no view holds a result for the work id of ANY agreed performable until that work id is added
+again — at any time, through any number of other adds, removals, collections and further outcomes -/
+theorem view_excludes_agreed (ttl : Nat) (evs mid : List Ev) (agreed : List CheckResult)
+    (a : CheckResult) (ha : a ∈ agreed)
+    (hmid : ∀ x ∈ mid, ∀ t r, x = .add t r → r.workID ≠ a.workID)
+    (t : Nat) (out : List CheckResult)
+    (h : ViewOf ttl t (run ttl (runHook (run ttl [] evs) agreed) mid) out) :
+    ∀ r ∈ out, r.workID ≠ a.workID := by
+  intro r hr hid
+  have hwf := WF_runHook (wf_reach ttl evs) agreed
+  obtain ⟨e, hg, _, _⟩ := (mem_view (WF_run mid hwf) r).mp ((List.Perm.mem_iff h).mp hr)
+  have := absent_stays (ttl := ttl) mid hwf (runHook_removes_every_agreed _ agreed a ha) hmid
+  rw [hid, this] at hg
+  cases hg
+
+/-- when no two agreed performables share an upkeep id, filing them per upkeep loses nothing: outcomes with one
+result per upkeep cannot tell `runHookPerUpkeep` from `runHook` … -/
+theorem runHookPerUpkeep_eq_of_distinct_upkeeps (s : Store) (agreed : List CheckResult)
+    (hd : (agreed.map (·.upkeepID)).Nodup) : runHookPerUpkeep s agreed = runHook s agreed := by
+  have key : ∀ (l : List CheckResult) (m : List (String × String)),
+      (∀ p ∈ m, p.1 ∉ l.map (·.upkeepID)) → (l.map (·.upkeepID)).Nodup →
+      l.foldl (fun m r => m.filter (fun p => decide (p.1 ≠ r.upkeepID)) ++ [(r.upkeepID, r.workID)]) m
+        = m ++ l.map (fun r => (r.upkeepID, r.workID)) := by
+    intro l
+    induction l with
+    | nil => intro m _ _; simp
+    | cons r rest ih =>
+      intro m hm hnd
+      simp only [List.map_cons, List.nodup_cons] at hnd
+      have hf : m.filter (fun p => decide (p.1 ≠ r.upkeepID)) = m := by
+        apply List.filter_eq_self.mpr
+        intro p hp
+        have := hm p hp
+        simp only [List.map_cons, List.mem_cons, not_or] at this
+        simpa using this.1
+      simp only [List.foldl_cons, hf]
+      rw [ih (m ++ [(r.upkeepID, r.workID)]) ?_ hnd.2]
+      · simp
+      · intro p hp
+        rcases List.mem_append.mp hp with hp | hp
+        · have := hm p hp
+          simp only [List.map_cons, List.mem_cons, not_or] at this
+          exact this.2
+        · simp only [List.mem_singleton] at hp
+          subst hp
+          exact hnd.1
+  have := key agreed [] (by simp) hd
+  simp only [List.nil_append] at this
+  unfold runHookPerUpkeep agreedPerUpkeep runHook
+  rw [this]
+  simp [List.map_map, Function.comp_def]
+
+private def resU (u w : String) (b : Nat) : CheckResult :=
+  { pes := 0, retryable := false, eligible := true, reason := 0, upkeepID := u, trigger := ⟨b, "h", none⟩,
+    workID := w, gas := 1, performData := "", fastGasWei := none, linkNative := none }
+
+/-- … but one outcome that agrees on two logs of ONE log-trigger upkeep can: three results staged (two logs of
+upkeep `u1`, one result of `u2`), all three agreed.  The hook empties the view; the per-upkeep variant keeps the
+first log of `u1` — an agreed result in every later view up to its TTL.  Its trace fails `spec`. -/
+theorem runHookPerUpkeep_keeps_agreed :
+    let a := resU "u1" "log-a" 7
+    let b := resU "u1" "log-b" 7
+    let c := resU "u2" "c" 3
+    let s0 := run 100 [] [.add 1 a, .add 1 b, .add 1 c]
+    view 100 2 (runHook s0 [a, c, b]) = [] ∧
+    view 100 2 (runHookPerUpkeep s0 [a, c, b]) = [a] ∧
+    spec 100 [.add 1 a, .add 1 b, .add 1 c, .remove 2 "log-a", .remove 2 "c", .remove 2 "log-b", .view 2 []] = true ∧
+    spec 100 [.add 1 a, .add 1 b, .add 1 c, .remove 2 "log-a", .remove 2 "c", .remove 2 "log-b", .view 2 [a]] = false ∧
+    explain 100 [.add 1 a, .add 1 b, .add 1 c, .remove 2 "log-a", .remove 2 "c", .remove 2 "log-b", .view 2 [a]] =
+      "view holds a removed, replaced or never added result" := by
+  decide
+
 /-! ### the residual case, and the pinned tree (witnesses) -/
 
 private def res (w : String) (b : Nat) : CheckResult :=
@@ -947,6 +1090,11 @@ example : monoB (h1 ++ [.gc 200, .add 200 (res "a" 6)]) = true ∧
       view 100 200 (run 100 [] (stripGc (h1 ++ [.gc 200, .add 200 (res "a" 6)]))) := by decide
 -- `dead_entry_collected_within_interval`: hypotheses are satisfiable
 example : (0 : Nat) ≤ 5 + Gen.storeTTLNs ∧ 5 + Gen.storeTTLNs + Gen.gcIntervalNs ≤ 400000000000 := by decide
+-- `view_after_hook` / `view_excludes_agreed`: an outcome with two logs of one upkeep and a foreign result, in a
+-- reachable store that holds a third log of that upkeep and another upkeep's result
+example : view 100 9 (runHook (run 100 [] [.add 1 (resU "u1" "la" 7), .add 2 (resU "u1" "lb" 7), .add 3 (resU "u1" "lc" 7),
+      .add 4 (resU "u2" "x" 1)]) [resU "u1" "lb" 9, resU "u9" "elsewhere" 1, resU "u1" "la" 7]) =
+    [resU "u1" "lc" 7, resU "u2" "x" 1] := by decide
 -- `conforms_spec` / `model_spec`: a history with views that exercises every clause
 private def h2 : List Ev :=
   [.add 1 (res "a" 7), .add 1 (res "b" 1), .view 2 [res "b" 1, res "a" 7], .add 3 (res "a" 7), .add 4 (res "a" 5),
